@@ -301,7 +301,7 @@ package shimagent
 //@     invariant forall(j, 0 <= j && j < len(keysInAgent), keysInAgent[j] != nil && akBlob(keysInAgent[j]) == blobid(asKey(keysInAgent[j])))
 //@     invariant forall(i, 0 <= i && i < len(keys), keys[i] != nil &&
 //@       ((s.noUpstreamSSHCACert && hiddenBlob(akBlob(keys[i]))) ==> exists(h#bytes, h in dom(s.certs), akBlob(keys[i]) == blobid(asKey(s.certs[h])))))
-//@     invariant forall(j, 0 <= j && j <= rangeindex,
+//@     invariant [visible-upstream-identities-stay-listed] forall(j, 0 <= j && j <= rangeindex,
 //@       (!(certBlob(blobid(asKey(keysInAgent[j]))) && parseOKid(blobid(asKey(keysInAgent[j])))) ||
 //@        (!(sha(blobid(asKey(keysInAgent[j]))) in dom(s.upstreamSSHCACertCache)) && !(s.noUpstreamSSHCACert && hiddenBlob(blobid(asKey(keysInAgent[j])))))) ==>
 //@       exists(i, 0 <= i && i < len(keys), keys[i] == keysInAgent[j] || akBlob(keys[i]) == blobid(asKey(keysInAgent[j]))))
